@@ -11,7 +11,7 @@ from han.common import MeterMessageType
 from vlib import gen_hdlc as GH
 from vlib import resync
 from vlib.ref_hdlc import FLAG
-from vlib.runner import Check, HypClause, Info, fail, guarded
+from vlib.runner import Check, FuzzClause, HypClause, Info, fail, guarded
 
 logging.disable(logging.CRITICAL)
 
@@ -161,11 +161,16 @@ def build() -> Check:
             "P1 reader, and both protocol classes with candidate lists [HDLC,P1], [P1,HDLC], [P1], [HDLC]; every returned message is asked "
             "is_valid/payload/as_bytes/message_type; then a clean tail (3 frames/readouts; 150 flag-free frames without stuffing) must be "
             "delivered per C16's rule. Non-trivial = the noise contains a structural character and (a byte >= 0x80 or a malformed end "
-            "line). Failures are bucketed by (exception type, innermost han function). Distinct = case hash."
+            "line). Failures are bucketed by (exception type, innermost han function). Distinct = case hash. coverage-guided: atheris "
+            "(libFuzzer) campaigns with han/ instrumented, raw bytes decoded into (splitting, noise), half from an empty corpus and half "
+            "seeded with genuine messages; its executions are counted in evaluations but not in distinct_nontrivial."
         ),
         assumptions=[
             "Only exceptions escaping the public calls count; logging is disabled.",
             "Usability rule after noise as in C16: stuffing and P1 - all clean messages but possibly the first; no stuffing - flag-free frames starting more than 2047 + own length octets after the noise.",
         ],
-        clauses=[HypClause("noise", case_st, oracle, quick=8000, thorough=300000)],
+        clauses=[
+            HypClause("noise", case_st, oracle, quick=8000, thorough=300000),
+            FuzzClause("coverage-guided", "C14", oracle, quick=(2, 1000), thorough=(16, 60000), max_len=400, doc="atheris/libFuzzer campaigns on the same oracle (raw bytes -> splitting + noise), empty and fixture corpora"),
+        ],
     )
